@@ -294,7 +294,7 @@ def run(chk):
                         cases.append(parse_line(line))
         n_corpus = len(cases)
         cases += gen_exhaustive(2 if quick else 3)
-        cases += gen_random(chk.rng, (260 if quick else 5000) * factor)
+        cases += gen_random(chk.rng, (260 if quick else 2000) * factor)
 
     lines = [case_line(c) for c in cases]
     impl = run_harness(build, "eng_pg", lines, shards=min(NCPU, 8), timeout=2400)
@@ -310,7 +310,8 @@ def run(chk):
     for c in cases:
         # the lock-section model (coq/Pg/Conc.v) run solo must agree with the atomic model
         exprs.append(f"solo_agree {UNIVERSE} (cinit []) pg0 {ops_term(c)}")
-    model = coq_eval("C11", IMPORTS, exprs)
+    # each shard needs ~1.5 GB for the large view terms: cap the parallelism
+    model = coq_eval("C11", IMPORTS, exprs, shards=max(1, min(NCPU, 8, len(exprs) // 20)))
     n = len(cases)
     distinct = set()
     hard = []
